@@ -1396,6 +1396,77 @@ class Discharger:
                 hi = INT_RANGE[ty][1]
         return lo, hi
 
+    def interval_of(self, local, bb, depth=4):
+        """(lo, hi) of an integer local at block bb: its type, the dominating guards (range_of) and — for a single-definition temporary —
+        the interval arithmetic of `copy`, `a % c`, `a / c`, `a & c`, `a >> c` with a literal c over the interval of a."""
+        ty = self.fn.local_ty(local)
+        if ty not in INT_RANGE:
+            return None
+        lo, hi = INT_RANGE[ty]
+        r = self.range_of(local, bb)
+        if r[0] is not None:
+            lo = max(lo, r[0])
+        if r[1] is not None:
+            hi = min(hi, r[1])
+        d = self.defs.single(local)
+        if depth > 0 and d is not None and d[0] == "st" and d[3]["k"] == "=" and not d[3]["lhs"]["p"] and self.fn.local_name(local) is None:
+            rv = d[3]["rv"]
+            sub = None
+            if rv["k"] == "use":
+                q = op_place(rv["op"])
+                if q is not None and not q["p"] and self._never_reassigned(q["l"]):
+                    sub = self.interval_of(q["l"], bb, depth - 1)
+            elif rv["k"] == "bin" and rv["op"] in ("Rem", "Div", "BitAnd", "Shr"):
+                q = op_place(rv["a"])
+                c = const_operand(rv["b"])
+                if q is not None and not q["p"] and c is not None and self._never_reassigned(q["l"]):
+                    a = self.interval_of(q["l"], bb, depth - 1)
+                    if a is not None and a[0] >= 0:
+                        if rv["op"] == "Rem" and c > 0:
+                            sub = (0, min(c - 1, a[1]))
+                        elif rv["op"] == "Div" and c > 0:
+                            sub = (a[0] // c, a[1] // c)
+                        elif rv["op"] == "BitAnd" and c >= 0:
+                            sub = (0, min(c, a[1]))
+                        elif rv["op"] == "Shr" and 0 <= c < 64:
+                            sub = (a[0] >> c, a[1] >> c)
+            if sub is not None:
+                lo, hi = max(lo, sub[0]), min(hi, sub[1])
+        return lo, hi
+
+    def _never_reassigned(self, local):
+        n = len(self.defs.defs.get(local, []))
+        return n == 0 if 1 <= local <= self.fn.argc else n == 1
+
+    def dead_arm_rule(self, site):
+        """an explicit panic (`unreachable!()`, `panic!()`) in the fall-through arm of a `match` on an integer whose interval — from its type,
+        the dominating guards and % / & >> by literals — is covered by the arms that are listed"""
+        if site.kind != "K1":
+            return None
+        preds = self.fn.pred()
+        bb = site.bb
+        for _ in range(3):
+            ps = list(preds[bb])
+            if len(ps) != 1:
+                return None
+            pb = ps[0]
+            t = self.fn.blocks[pb]["t"]
+            if t["k"] == "switch" and t.get("else") == bb and bb not in [tb for _, tb in t["ts"]]:
+                q = op_place(t["op"])
+                if q is None or q["p"]:
+                    return None
+                iv = self.interval_of(q["l"], pb)
+                if iv is None or iv[1] - iv[0] > 4096:
+                    return None
+                listed = {v for v, _ in t["ts"]}
+                if all(v in listed for v in range(iv[0], iv[1] + 1)):
+                    return "dead_arm: the matched value lies in [%d, %d] and every value of that interval has its own arm" % iv
+                return None
+            if t["k"] != "goto":
+                return None
+            bb = pb
+        return None
+
     def dominating_cmp(self, a, b, site_bb):
         """a >= b holds at site"""
         a, b = self._canon(a), self._canon(b)
